@@ -104,7 +104,8 @@ def shares(a, b):
                 if x.size and y.size and numpy.shares_memory(x, y):
                     return True
             elif hasattr(x, "data_ptr") and hasattr(y, "data_ptr"):
-                if x.numel() and y.numel() and x.data_ptr() == y.data_ptr():
+                # same underlying storage (a slice such as state[r:N] starts at another address than its parent)
+                if x.numel() and y.numel() and x.untyped_storage().data_ptr() == y.untyped_storage().data_ptr():
                     return True
     return False
 
